@@ -191,7 +191,13 @@ func VerifC20Raft() {
 	}
 	cfgs := map[uint64]*Config{}
 	live := map[uint64]*Server{}
+	vclock := verifrt.Bound("vclock", 0) == 1
 	round := func() {
+		if vclock {
+			// virtual time: every ticker and every deadline of every group on every member fires when due
+			verifrt.AdvanceTime(100 * time.Millisecond)
+			return
+		}
 		for id := uint64(1); id <= uint64(members); id++ {
 			if s := live[id]; s != nil {
 				s.zeroGroup.VerifTick()
